@@ -11,4 +11,5 @@ MC_KindsF == {"F"}
 MC_FLens == 0..3
 MC_FLens4 == 0..4
 MC_Chunks == {1, 9}
+MC_Chunks9 == {9}
 =============================================================================
